@@ -1,6 +1,6 @@
 """C11 -- joint allocations: member layouts, raw joint_allocator requests, overflow / exact fit, reset, clone, move."""
 import subprocess
-from vlib import build
+from vlib import proc, build
 
 
 def gen_lines(rng, thorough):
@@ -14,7 +14,7 @@ def gen_lines(rng, thorough):
         # what the layout needs if nothing is wasted, then capacities around it: far below, one short, exact-ish, roomy
         need = nc + na * 8 + nb * 16 + sum(r[0] for r in raw) + 40
         cap = max(0, rng.choice([0, need // 2, need - 17, need - 9, need - 8, need - 1, need, need + 1, need + 7, need + 64, rng.randint(0, need + 80)]))
-        post = rng.choice(['none', 'reset', 'clone', 'move', 'swap', 'assignnull'])
+        post = rng.choice(['none', 'reset', 'clone', 'move', 'swap', 'assignnull', 'moveassign2', 'swap2', 'movector2'])
         lines.append('j %s %d %d %d %d -1 %s %s' % (form, cap, nc, na, nb, post, ' '.join('%d %d' % r for r in raw)))
     return lines
 
@@ -28,6 +28,10 @@ def oracle(line):
     for x in toks:
         if '=' in x:
             a, b = x.split('=', 1); kv.setdefault(a, b)
+    if kv.get('outside', '0') != '0':
+        return '%s element(s) were constructed outside the block of the object (a write past the end of the joint memory)' % kv['outside']
+    if 'U!foreign' in toks or 'owner=WRONG' in toks:
+        return 'after a move between joint_ptrs of two allocator objects the block is owned by / released through the wrong allocator object'
     if 'ctor=ok' not in toks:
         return None
     sT = int(kv['sT']); eS = int(kv.get('eS', 8))
@@ -71,7 +75,7 @@ def run(ctx):
     tot = {}; n = 0
     for c in ['base', 'dbg8']:
         exe = build.build_harness('joint', c, ['h_joint.cpp'])
-        out = subprocess.run([exe], input='\n'.join(lines) + '\n', stdout=subprocess.PIPE, stderr=subprocess.PIPE, text=True)
+        out = proc.run([exe], input='\n'.join(lines) + '\n', timeout=300)
         if out.returncode != 0:
             ctx.tie_broken.append('joint harness exit %d in %s: %s' % (out.returncode, c, out.stderr[-200:]))
             if len(ctx.violations) < 3:
